@@ -160,6 +160,7 @@ type c02Wire struct {
 	short    *c02Short
 	wg       sync.WaitGroup
 	conns    map[net.Conn]bool
+	closed   bool
 }
 
 func newC02Wire(name string, backend *vBackend, short *c02Short) *c02Wire {
@@ -180,6 +181,13 @@ func newC02Wire(name string, backend *vBackend, short *c02Short) *c02Wire {
 				return
 			}
 			w.mu.Lock()
+			if w.closed {
+				// accepted while Close was running: Close has not seen this connection
+				w.mu.Unlock()
+				conn.Close()
+
+				return
+			}
 			w.conns[conn] = true
 			w.mu.Unlock()
 			w.wg.Add(1)
@@ -200,6 +208,7 @@ func newC02Wire(name string, backend *vBackend, short *c02Short) *c02Wire {
 func (w *c02Wire) Close() {
 	w.listener.Close()
 	w.mu.Lock()
+	w.closed = true
 	for c := range w.conns {
 		c.Close()
 	}
@@ -620,8 +629,12 @@ func c02RunCase(idx int, in *c02Input, intern *c02Intern) (res *c02Result) {
 		res.errText = err.Error()
 	}
 	res.oflags = peer.flags
+	// a copy: fetch goroutines of a parallel initial sync which failed early may still be answered by the wire
 	wire.mu.Lock()
-	captured := wire.captured
+	captured := make(map[string]*c02Capture, len(wire.captured))
+	for k, v := range wire.captured {
+		captured[k] = v
+	}
 	wire.mu.Unlock()
 
 	refRand := newVRand(in.RefSeed)
